@@ -15,6 +15,14 @@ CHECKS = {
             "Runtime monitor in three layers: (1) keyring API sequences (valid/invalid/duplicate/absent/primary keys, constructor variants) in lock-step with a reference keyring, with an aliasing monitor over every list GetKeys ever returned; (2) concurrent writers/readers under the Go race detector, the recorded call/return history checked for linearizability with porcupine, returned lists watched for tearing; (3) real 3-5 node encrypted clusters in virtual time performing install/use/remove node by node in PRNG order with an all-pairs packet+stream traffic probe after every single step, plus a negative control (out-of-order rotation must break a pair, else the probe is blind -> inconclusive).",
             "Trusts the reference keyring model, porcupine v1.3.0, the race detector, testing/synctest's fake clock and the in-memory transport.",
             "model lock-step + race detector + porcupine linearizability + rotation traffic probe", "DESIGN.md §3 C17"),
+    "C01": ("E2-rig (one real node + fake peers, virtual time)", "exploration",
+            "Runtime monitor: a real node in a synctest bubble receives alive/suspect/dead/leave/push-pull claims through five carriers; before/after snapshots (record incl. suspicion timer, Members(), event count, per-subject broadcast queue) are judged by a SWIM-precedence predicate written from the statement (stale => nothing; equal => nothing but a first-time confirmation re-gossip; any => unchanged or exactly the claim, never backwards, except the permitted address reclaim). An explicit cross product of prior state x incarnation relation x kind x address x carrier is required coverage; PRNG sequences add order effects.",
+            "Trusts the oracle-side wire codec, the verif accessors (read under the node lock), synctest quiescence (snapshots only when no goroutine is runnable).",
+            "before/after snapshot oracle over injected claims (virtual time)", "DESIGN.md §3 C01"),
+    "C02": ("E2-rig + E1-simnet", "exploration",
+            "Runtime monitor: accusations about the node itself (type x incarnation relation incl. far-ahead x path incl. ping-piggyback and push/pull) are injected into a real node; after each one the refutation rule is checked on the dump and the decoded broadcast queue (incarnation strictly above accusation, alive with own addr/meta/vsn queued, health +1, ping still acked; stale => no effect), and the always-on invariant monitor (self alive and listed) runs at every quiescent point, also in 4-node restart scenarios where peers remember a higher incarnation.",
+            "Trusts the wire codec, verif accessors, synctest quiescence; accusations at 2^32-1 are outside the statement and not generated.",
+            "invariant monitor + post-accusation oracle on queue/dump", "DESIGN.md §3 C02"),
 }
 
 NOT_YET = "check not built yet in this round (design in DESIGN.md §3); not claimed until its monitor runs clean on the unchanged tree"
@@ -51,7 +59,7 @@ def main():
         },
         "engines": [
             {"name": "E1-simnet", "path": "harness/simnet.go", "serves_properties": [], "kind_free_text": "real Memberlist instances on an in-memory transport inside a testing/synctest bubble (virtual time), with wire tap, fault scripts and fake peers"},
-            {"name": "E2-model-lockstep", "path": "harness/", "serves_properties": ["C10", "C17"], "kind_free_text": "PRNG operation sequences against one object with an executable reference model evaluated in lock-step"},
+            {"name": "E2-model-lockstep", "path": "harness/", "serves_properties": ["C01", "C02", "C10", "C17"], "kind_free_text": "PRNG operation sequences against one object with an executable reference model evaluated in lock-step"},
         ],
         "checks": checks,
         "not_applicable": [{"property_id": p, "reason": NOT_YET} for p in ALL if p not in CHECKS],
